@@ -481,7 +481,10 @@ func c04Registration(p *Program, r *Report) {
 	}
 	r.Check(good, "closer deregisters the registered agent ref", app.Pos(), "the closer given to the future calls the deregistration with the very agent ref that is registered")
 	// registration precedes the enqueue of the request
-	enq := nodesWhere(g, func(in ssa.Instruction) bool { c := callOf(in); return c != nil && c.IsInvoke() && c.Method.Name() == "Enqueue" })
+	enq := nodesWhere(g, func(in ssa.Instruction) bool {
+		c := callOf(in)
+		return c != nil && c.IsInvoke() && c.Method.Name() == "Enqueue"
+	})
 	ok := len(enq) > 0
 	for e := range enq {
 		if !g.DominatedByNodes(e, setOf(g.Idx[app])) {
